@@ -160,3 +160,22 @@ func init() {
 	neutralisers["dict-key-registration-order"] = neutraliseKeyRegistration
 	neutralisers["dict-equal-text-key-order"] = neutraliseEqualKeys
 }
+
+// neutraliseAliasC removes the trigger of the known finding "a package aliased C
+// next to the cgo pseudo-package": the user-supplied alias is renamed.
+func neutraliseAliasC(c *Case) (*Case, bool) {
+	if c.Recipe == nil {
+		return c, false
+	}
+	nr := cloneRecipe(c.Recipe)
+	changed := false
+	for i := range nr.Ops {
+		if nr.Ops[i].K == "hint_alias" && nr.Ops[i].S == "C" {
+			nr.Ops[i].S = "Cx"
+			changed = true
+		}
+	}
+	return withRecipe(c, nr), changed
+}
+
+func init() { neutralisers["alias-named-C-next-to-cgo"] = neutraliseAliasC }
